@@ -74,7 +74,9 @@ struct Rng
             v[i] = v[j];
             v[j] = t;
         }
-        for (i = 0; i < n; ++i) { out[i] = (a_real)((sgn && (next() & 1)) ? -v[i] : v[i]); }
+        /* the factor fills the low mantissa bits of every configuration (a `double` parameter in a wrapper would lose them
+           in the long double build) */
+        for (i = 0; i < n; ++i) { out[i] = (a_real)((sgn && (next() & 1)) ? -v[i] : v[i]) * ((a_real)1 + 3 * A_REAL_EPSILON); }
     }
 };
 
@@ -155,7 +157,11 @@ static void compare(char const *st, char const *mem, W &w, std::string const &ar
             if (memcmp(pa + o, pc + o, fl[i].es) == 0) { continue; }
             if (g_ndiff < 40 && shown < 6)
             {
-                std::string nm = fl[i].name;
+                std::string nm;
+                for (char const *c = fl[i].name; *c; ++c)
+                {
+                    if (*c != ' ') { nm += *c; } /* stringified macro arguments may carry blanks */
+                }
                 if (fl[i].size > fl[i].es) { nm += fmt("[%u]", (unsigned)((o - fl[i].off) / fl[i].es)); }
                 printf("DIFF %s::%s args=%s field=%s cxx=%s c=%s\n", st, mem, args.c_str(), nm.c_str(),
                        show(fl[i], pa + o).c_str(), show(fl[i], pc + o).c_str());
